@@ -170,7 +170,9 @@ def check(run, replay=None):
     libcommon.regen_imp(run)
     run.prove("Props/C18T", THEOREMS_T, strengthening=True)
     run.prove("Props/C18S", THEOREMS_S, strengthening=True)       # struct_msg.rs / parser/mod.rs (separate translations)
-    run.prove("Props/C07R", ["c18_translated_missing_payload_parameter", "c18_translated_mismatched_payload_types_are_reported"], strengthening=True)   # reply.rs ReplyData::new
+    run.prove("Props/C07R", ["c18_translated_missing_payload_parameter", "c18_translated_mismatched_payload_types_are_reported"], strengthening=True)
+    run.prove("Props/C07B", ["c18_hand_model_excludes_is_the_translated_one", "c18_hand_model_type_mismatches_are_the_translated_ones"],
+              strengthening=True)   # reply.rs ReplyData::new
     # ---- contracts / interfaces with planted edits
     g = gen.ProgGen(rng)
     progs, metas = [], []
